@@ -1,5 +1,6 @@
 import NssVerif.Model.Schedule
 import NssVerif.Lemmas.Schedule
+import NssVerif.Gen.Src.C10
 import Mathlib.Data.List.Basic
 import Mathlib.Data.List.Perm.Basic
 
@@ -224,5 +225,81 @@ example : batch (β := Nat) (fun x => if x = 13 then .error "boom" else .ok (x +
   intro x _ e h
   split at h <;> cases h
   rfl
+
+
+/-! ### source tie: `CphotAng.__call__` as regenerated from the Python source (`Gen/Src/C10.lean`, harness/calltrans.py)
+
+`Gen.Src.C10.call` is assembled on every run from the statements the reader recognises in the working tree (empty-batch
+answer, `from_sequence(zip(…), partition_size=K)`, `map(lambda x: self.run(*x, cloudf))`, `compute()`, the completeness
+guard `len(results) != len(betaE)`, `zip(*results)`, the returned pair).  The theorems below are about THAT definition and
+about the names and literals read from the source. -/
+
+/-- the partition size written in the source is a valid one (dask rejects 0; the schedule theorems need `0 < n`) -/
+theorem src_partition_size_pos : 0 < Gen.Src.C10.partitionSize := by decide
+
+/-- the completeness guard of the source never fires for a valid schedule, and the call read from the source is the
+model's call at the source's partition size (the model has no guard: by `batch_never_partial` it needs none) -/
+theorem src_call_eq_model (f : α → Except ε (β × γ)) (xs : List α) (sched : List Completion)
+    (hv : ValidSchedule (partition Gen.Src.C10.partitionSize xs).length sched) :
+    Gen.Src.C10.call f xs sched = call f Gen.Src.C10.partitionSize xs sched := by
+  unfold Gen.Src.C10.call call
+  by_cases h0 : xs.length = 0
+  · simp [h0]
+  · have h1 : ¬ xs.length < 1 := by omega
+    simp only [h1, h0, if_false]
+    cases hb : batch f Gen.Src.C10.partitionSize xs sched with
+    | raised e => rfl
+    | lost => rfl
+    | ok ys =>
+      have hlen : ys.length = xs.length :=
+        (batch_never_partial f _ src_partition_size_pos xs ys sched hv hb).length_eq.symm
+      simp [hlen]
+
+/-- the property's first sentence about the call as read from the source: for every batch (the empty one included), every
+completion order and worker assignment, the two returned arrays are the per-event results in input order -/
+theorem src_call_eq_map (f : α → Except ε (β × γ)) (g : α → β × γ) (xs : List α)
+    (hf : ∀ x ∈ xs, f x = .ok (g x)) (sched : List Completion)
+    (hv : ValidSchedule (partition Gen.Src.C10.partitionSize xs).length sched) :
+    Gen.Src.C10.call f xs sched = .ok (some (xs.map fun x => (g x).1, xs.map fun x => (g x).2)) := by
+  rw [src_call_eq_model f xs sched hv]
+  exact call_eq_map f g _ src_partition_size_pos xs hf sched hv
+
+/-- … and its second sentence: a failing event makes the call as read from the source raise, under every schedule -/
+theorem src_call_failure_surfaces (f : α → Except ε (β × γ)) (xs : List α)
+    (k : Nat) (hk : k < xs.length) (e0 : ε) (hfail : f xs[k] = .error e0)
+    (sched : List Completion) (hv : ValidSchedule (partition Gen.Src.C10.partitionSize xs).length sched) :
+    ∃ e, Gen.Src.C10.call f xs sched = .error e ∧ ∃ (j : Nat) (hj : j < xs.length), f xs[j] = .error e := by
+  rw [src_call_eq_model f xs sched hv]
+  exact call_failure_surfaces f _ src_partition_size_pos xs k hk e0 hfail sched hv
+
+/-- two schedules give the same answer for the call as read from the source -/
+theorem src_call_schedule_irrelevant (f : α → Except ε (β × γ)) (g : α → β × γ) (xs : List α)
+    (hf : ∀ x ∈ xs, f x = .ok (g x)) (sched sched' : List Completion)
+    (hv : ValidSchedule (partition Gen.Src.C10.partitionSize xs).length sched)
+    (hv' : ValidSchedule (partition Gen.Src.C10.partitionSize xs).length sched') :
+    Gen.Src.C10.call f xs sched = Gen.Src.C10.call f xs sched' := by
+  rw [src_call_eq_map f g xs hf sched hv, src_call_eq_map f g xs hf sched' hv']
+
+/-- positional wiring read from the source: the per-event tuples are zipped in the order of `__call__`'s own parameters;
+every zipped array is covered by the empty-batch guard; the tuple is unpacked into `run` followed by the one remaining
+parameter, which fills `run`'s parameter list exactly; every `return` of `run` is a pair; the completeness guard compares
+the gathered results with the first zipped array; the pair is unzipped and returned in `run`'s output order -/
+theorem src_wiring :
+    Gen.Src.C10.zipped = Gen.Src.C10.callParams.take Gen.Src.C10.zipped.length
+    ∧ Gen.Src.C10.emptyGuard = Gen.Src.C10.zipped
+    ∧ Gen.Src.C10.runCallArgs = ["*x"] ++ Gen.Src.C10.callParams.drop Gen.Src.C10.zipped.length
+    ∧ Gen.Src.C10.zipped.length + (Gen.Src.C10.runCallArgs.length - 1) = Gen.Src.C10.runParams.length
+    ∧ Gen.Src.C10.runParams.drop Gen.Src.C10.zipped.length = Gen.Src.C10.callParams.drop Gen.Src.C10.zipped.length
+    ∧ Gen.Src.C10.runReturnArities.all (· == 2) = true
+    ∧ Gen.Src.C10.lengthGuard.getLast? = Gen.Src.C10.zipped.head?
+    ∧ Gen.Src.C10.returned = Gen.Src.C10.unzipTargets
+    ∧ Gen.Src.C10.unzipTargets.length = 2
+    ∧ Gen.Src.C10.unzipTargets.getLast? = Gen.Src.C10.runReturns.getLast? := by decide +kernel
+
+/-- non-vacuity: the call as read from the source on a batch of 7 events under the synchronous schedule -/
+example : Gen.Src.C10.call (ε := String) (fun x : Nat => .ok (x, x + 1)) [3, 1, 4, 1, 5, 9, 2]
+      (syncSchedule (partition Gen.Src.C10.partitionSize [3, 1, 4, 1, 5, 9, 2]).length)
+    = .ok (some ([3, 1, 4, 1, 5, 9, 2], [4, 2, 5, 2, 6, 10, 3])) :=
+  src_call_eq_map _ (fun x => (x, x + 1)) _ (fun _ _ => rfl) _ (syncSchedule_valid _)
 
 end C10
